@@ -244,8 +244,12 @@ void generateXConstraints(const Rectangles& rs, const Variables& vars,
     for(i=0;i<n;i++) {
         vars[i]->desiredPosition=rs[i]->getCentreX();
         Node *v = new Node(vars[i],rs[i],rs[i]->getCentreX());
+        // A very thin rectangle can have its extent rounded to zero (or to
+        // minus one unit in the last place) when it is moved, so never let
+        // the Close event precede the Open event.
         events[ctr++]=new Event(Open,v,rs[i]->getMinY());
-        events[ctr++]=new Event(Close,v,rs[i]->getMaxY());
+        events[ctr++]=new Event(Close,v,
+                std::max(rs[i]->getMinY(), rs[i]->getMaxY()));
     }
     qsort((Event*)events, (size_t)2*n, sizeof(Event*), compare_events );
 
@@ -338,9 +342,10 @@ void generateYConstraints(const Rectangles& rs, const Variables& vars,
         Variable* v=*vi;
         v->desiredPosition=r->getCentreY();
         Node *node = new Node(v,r,r->getCentreY());
-        COLA_ASSERT(r->getMinX()<r->getMaxX());
+        // As above: tolerate an extent that has been rounded to zero.
         events[ctr++]=new Event(Open,node,r->getMinX());
-        events[ctr++]=new Event(Close,node,r->getMaxX());
+        events[ctr++]=new Event(Close,node,
+                std::max(r->getMinX(), r->getMaxX()));
     }
     COLA_ASSERT(ri==rs.end());
     qsort((Event*)events, (size_t)2*n, sizeof(Event*), compare_events );
